@@ -23,6 +23,8 @@ import (
 	"strings"
 
 	"github.com/tsawler/tabula"
+	"github.com/tsawler/tabula/docx"
+	"github.com/tsawler/tabula/odt"
 	"github.com/tsawler/tabula/model"
 	"github.com/tsawler/tabula/rag"
 
@@ -89,6 +91,37 @@ func (b *fileBackend) Markdown(c *fw.Ctx, id string, d *logical.Doc, r *rand.Ran
 		return "", err
 	}
 	defer os.Remove(path)
+	// half of the word-processor cases go through the format's own Reader, which
+	// first serves its side views (tables, lists, model) — the rendering that
+	// follows must be the same document
+	if r.Intn(2) == 0 {
+		switch b.w.Ext() {
+		case ".docx":
+			if rd, err := docx.Open(path); err == nil {
+				defer rd.Close()
+				rd.Tables()
+				rd.ModelTables()
+				rd.Lists()
+				if r.Intn(2) == 0 {
+					rd.Markdown()
+					rd.Document()
+				}
+				return rd.MarkdownWithRAGOptions(docx.ExtractOptions{}, o)
+			}
+		case ".odt":
+			if rd, err := odt.Open(path); err == nil {
+				defer rd.Close()
+				rd.Tables()
+				rd.ModelTables()
+				rd.Lists()
+				if r.Intn(2) == 0 {
+					rd.Markdown()
+					rd.Document()
+				}
+				return rd.MarkdownWithRAGOptions(odt.ExtractOptions{}, o)
+			}
+		}
+	}
 	md, _, err := tabula.Open(path).ToMarkdownWithOptions(o)
 	return md, err
 }
